@@ -86,9 +86,46 @@ def entry_points(mode, square, batch, m, n):
         eps["root_decomposition"] = (lambda op, T: (Wsym * _llt(bind_dense(op.root_decomposition().root))).sum(), lambda A, T: (Wsym * sym(A)).sum(), True, {})
         eps["root_inv_decomposition"] = (lambda op, T: (Wsym * _llt(bind_dense(op.root_inv_decomposition().root))).sum(),
                                          lambda A, T: (Wsym * torch.linalg.inv(sym(A))).sum(), True, {})
+        # both outputs of one decomposition: the inverse root first, then the root of the same object (a cache hit above max_cholesky_size,
+        # where one Function call produced both and its backward has to accumulate the two incoming gradients)
+        def _both(op, T):
+            Si = bind_dense(op.root_inv_decomposition().root)
+            R = bind_dense(op.root_decomposition().root)
+            return (Wsym * _llt(R)).sum() + (Wsym.flip(-1).flip(-2) * _llt(Si)).sum()
+        eps["root_inv_then_root"] = (_both, lambda A, T: (Wsym * sym(A)).sum() + (Wsym.flip(-1).flip(-2) * torch.linalg.inv(sym(A))).sum(), True, {})
         eps["pivoted_cholesky"] = (lambda op, T: (Wsym * _llt(op.pivoted_cholesky(rank=n, error_tol=1e-12))).sum(), lambda A, T: (Wsym * sym(A)).sum(), True, {})
         eps["sqrt_inv_matmul"] = (lambda op, T: (op.sqrt_inv_matmul(T["rB"]) ** 2).sum(), lambda A, T: (T["rB"] * torch.linalg.solve(sym(A), T["rB"])).sum(), True, dict(rB=B))
     return eps
+
+
+def _repeated_eigenvalues(op, rel=1e-4):
+    """does the operator, or any square sub-operator it is built from, have (nearly) repeated eigenvalues?  Eigendecomposition-based roots
+    (torch.linalg.eigh, Lanczos) have no defined derivative there (documented for torch.linalg.eigh: 'gradients ... will only be finite when A
+    has distinct eigenvalues'), so their gradients are not judged on such inputs."""
+    from linear_operator.operators import LinearOperator
+    seen = []
+
+    def walk(o):
+        if isinstance(o, LinearOperator):
+            seen.append(o)
+            for a in list(o._args) + list(o._kwargs.values()):
+                walk(a)
+    walk(op)
+    for o in seen:
+        if o.shape[-1] != o.shape[-2] or o.shape[-1] < 2:
+            continue
+        try:
+            with torch.no_grad():
+                D = o.to_dense().to(F64)
+            if float((D - D.mT).abs().max()) > 1e-9 * max(1.0, float(D.abs().max())):
+                continue
+            ev = torch.linalg.eigvalsh(D)
+        except Exception:  # noqa
+            continue
+        gaps = (ev[..., 1:] - ev[..., :-1]).abs()
+        if float(gaps.min()) <= rel * max(1.0, float(ev.abs().max())):
+            return True
+    return False
 
 
 def bind_dense(x):
@@ -176,9 +213,8 @@ def check(case):
         for (mem_eff, max_chol) in configs:
             if max_chol == 0 and name in ("cholesky", "pivoted_cholesky", "to_dense", "matmul", "t_matmul", "sum_rows", "getitem", "diagonal"):
                 continue
-            lanczos_like = max_chol == 0 and name in ("root_decomposition", "root_inv_decomposition")
-            if lanczos_like:
-                continue      # gradients of Lanczos-type roots are not claimed (DESIGN 5/C07 limits)
+            # (Lanczos-type roots above max_cholesky_size: judged only when the forward value is exact, i.e. the Krylov space is the whole
+            #  space - the forward-value guard below drops truncated roots, whose gradients are not claimed, DESIGN 5/C07 limits)
             if max_chol == 0 and own_probes and name in ("logdet", "inv_quad_logdet"):
                 continue      # the stochastic estimate uses probes this harness does not control
             # which tensors require grad: (parameter subset, right-hand sides: all / none / only the first)
@@ -205,6 +241,10 @@ def check(case):
                             st.enter_context(S.max_lanczos_quadrature_iterations(n + 2))
                             st.enter_context(S.max_preconditioner_size(0))
                             st.enter_context(ScaledUnitProbes(n))
+                        if max_chol == 0 and name in ("root_decomposition", "root_inv_decomposition", "root_inv_then_root") and \
+                                _repeated_eigenvalues(bind.build(case["term"], F64)):      # (a separate instance: to_dense is cached on the object)
+                            stats["degenerate_spectrum_skipped"] = stats.get("degenerate_spectrum_skipped", 0) + 1
+                            continue
                         try:
                             s = flib(op, T)
                         except Exception:  # noqa
